@@ -3,6 +3,7 @@ import SplVerif.Driver.OpsLex
 import SplVerif.Model.Parser
 import SplVerif.Spec.Grammar
 import SplVerif.Spec.Typing
+import SplVerif.Spec.LspPos
 
 namespace Spl.Ops
 open Spl Spl.Wire
@@ -168,6 +169,32 @@ def parseOps (op : String) (args : List String) (_impl : String) : Option String
       else if parsed.any (fun (_, a, b) => (a < hi && lo < b) || (a == b && lo ≤ a && a ≤ hi)) then some "ok"
       else some s!"bad:{kind}-not-on-the-culprit-{lo}-{hi}"
     | _, _ => none
+  | "JUDGEPUB", [t, _prev, _mode, lo, hi] =>
+    -- the diagnostics PUBLISHED for the faulty program (after the history named by `_prev` / `_mode`): every range
+    -- lies inside the document and one of them overlaps the culprit (positions by the independent LSP position rules)
+    match textOfHex t, lo.toNat?, hi.toNat? with
+    | some text, some lo, some hi =>
+      let rs := (_impl.splitOn ";").filter (· != "")
+      let num := fun (x : String) => x.toNat?
+      let parsed := rs.filterMap (fun r =>
+        match r.splitOn "-" with
+        | [a, b] =>
+          match a.splitOn ":", b.splitOn ":" with
+          | [l1, c1], [l2, c2] =>
+            match num l1, num c1, num l2, num c2 with
+            | some l1, some c1, some l2, some c2 => some ((l1, c1), (l2, c2))
+            | _, _, _, _ => none
+          | _, _ => none
+        | _ => none)
+      let le := fun (p q : Nat × Nat) => p.1 < q.1 || (p.1 == q.1 && p.2 ≤ q.2)
+      let pos := fun (b : Nat) => let p := LspPos.position text b; (p.line, p.col)
+      let endP := pos (utf8Len text)
+      if parsed.length != rs.length then some "bad:unparsable-ranges"
+      else if parsed.isEmpty then some "bad:nothing-published-for-the-faulty-program"
+      else if parsed.any (fun (a, b) => !(le a b && le b endP)) then some "bad:published-range-outside-the-document"
+      else if parsed.any (fun (a, b) => le a (pos hi) && le (pos lo) b) then some "ok"
+      else some s!"bad:no-published-range-on-the-culprit-{lo}-{hi}"
+    | _, _, _ => none
   | "SPECPARSE", [t] =>
     (textOfHex t).map fun s =>
       match lex s with
